@@ -246,14 +246,6 @@ def F3e():
     return bad, f"messages put to the application, in order: {puts} (run ended with {names(err)})"
 
 
-SCENARIOS = {k: v for k, v in globals().items() if k.startswith("F") and callable(v)}
-
-if __name__ == "__main__":
-    import sys
-    for name in sys.argv[1:] or sorted(SCENARIOS):
-        print(name, SCENARIOS[name]())
-
-
 def F5w():
     """the application accepts with a subprotocol the client did not offer and does not catch the
     resulting exception: WSStream._accept has already set state CONNECTED before accept() raised, so
@@ -284,3 +276,11 @@ def F4j():
         return True
     h, r, exc = run_h1(app, sc)
     return ("UnicodeDecodeError" in names(exc)), f"exception escaping handle(): {names(exc)}"
+
+
+SCENARIOS = {k: v for k, v in globals().items() if k.startswith("F") and callable(v)}
+
+if __name__ == "__main__":
+    import sys
+    for name in sys.argv[1:] or sorted(SCENARIOS):
+        print(name, SCENARIOS[name]())
